@@ -508,6 +508,28 @@ pub fn gen_section_of_kind(t: &mut Tape, o: &GenOpts, kind: SK) -> Section {
     }
 }
 
+/// The paths of a two-way git section as git writes them under core.quotePath (its default): every
+/// byte outside ASCII as a backslash and three octal digits; render_section adds the quotes (and,
+/// behind them, the tab that follows a name with a blank).  What delta shows is the escaped name, as git itself does.
+pub fn quote_paths(s: &mut Section) {
+    if matches!(s.kind, SK::PlainDiffU | SK::Combined | SK::SubmoduleShort) {
+        return;
+    }
+    let esc = |p: &str| -> String {
+        let mut o = String::new();
+        for b in p.bytes() {
+            if b < 0x80 {
+                o.push(b as char);
+            } else {
+                o.push_str(&format!("\\{:03o}", b));
+            }
+        }
+        o
+    };
+    s.old_path = esc(&s.old_path);
+    s.new_path = esc(&s.new_path);
+}
+
 pub fn gen_commit(t: &mut Tape, with_stat_for: &[String]) -> Commit {
     let hash = text::hex(t, 40);
     let decoration = match t.weighted(&[5, 1, 1]) {
@@ -620,7 +642,10 @@ pub fn render_section(sec: &Section, si: usize, out: &mut Vec<InLine>) {
             push(out, format!("+++ b/{}{}", sec.new_path, path_line_suffix(&sec.new_path)), Role::PlusFile { sec: si });
         }
         _ => {
-            push(out, format!("diff --git {}{} {}{}", a, sec.old_path, b, sec.new_path), Role::DiffLine { sec: si });
+            // a path holding octal escapes (`\303\274ber.txt`, see quote_paths) is written as git writes
+            // it under core.quotePath (the default): between double quotes, in every header line
+            let q = |prefix: &str, p: &str| if p.contains('\\') { format!("\"{}{}\"", prefix, p) } else { format!("{}{}", prefix, p) };
+            push(out, format!("diff --git {} {}", q(a, &sec.old_path), q(b, &sec.new_path)), Role::DiffLine { sec: si });
             match sec.kind {
                 SK::Added | SK::BinaryAdded | SK::EmptyNew => {
                     push(out, format!("new file mode {}", sec.new_mode), Role::FileOp { sec: si });
@@ -632,16 +657,16 @@ pub fn render_section(sec: &Section, si: usize, out: &mut Vec<InLine>) {
                 }
                 SK::RenamedPure | SK::RenamedChanged | SK::RenamedBinary => {
                     push(out, format!("similarity index {}%", if sec.kind == SK::RenamedPure { 100 } else { 87 }), Role::Extended { sec: si });
-                    push(out, format!("rename from {}", sec.old_path), Role::RenameCopy { sec: si });
-                    push(out, format!("rename to {}", sec.new_path), Role::RenameCopy { sec: si });
+                    push(out, format!("rename from {}", q("", &sec.old_path)), Role::RenameCopy { sec: si });
+                    push(out, format!("rename to {}", q("", &sec.new_path)), Role::RenameCopy { sec: si });
                     if sec.kind != SK::RenamedPure {
                         push(out, idx(&sec.new_mode), Role::Extended { sec: si });
                     }
                 }
                 SK::CopiedPure | SK::CopiedChanged | SK::CopiedBinary => {
                     push(out, format!("similarity index {}%", if sec.kind == SK::CopiedPure { 100 } else { 70 }), Role::Extended { sec: si });
-                    push(out, format!("copy from {}", sec.old_path), Role::RenameCopy { sec: si });
-                    push(out, format!("copy to {}", sec.new_path), Role::RenameCopy { sec: si });
+                    push(out, format!("copy from {}", q("", &sec.old_path)), Role::RenameCopy { sec: si });
+                    push(out, format!("copy to {}", q("", &sec.new_path)), Role::RenameCopy { sec: si });
                     if sec.kind != SK::CopiedPure {
                         push(out, idx(&sec.new_mode), Role::Extended { sec: si });
                     }
@@ -658,14 +683,14 @@ pub fn render_section(sec: &Section, si: usize, out: &mut Vec<InLine>) {
                 }
             }
             match sec.kind {
-                SK::BinaryModified | SK::RenamedBinary | SK::CopiedBinary => push(out, format!("Binary files {}{} and {}{} differ", a, sec.old_path, b, sec.new_path), Role::Binary { sec: si }),
-                SK::BinaryAdded => push(out, format!("Binary files /dev/null and {}{} differ", b, sec.new_path), Role::Binary { sec: si }),
-                SK::BinaryDeleted => push(out, format!("Binary files {}{} and /dev/null differ", a, sec.old_path), Role::Binary { sec: si }),
+                SK::BinaryModified | SK::RenamedBinary | SK::CopiedBinary => push(out, format!("Binary files {} and {} differ", q(a, &sec.old_path), q(b, &sec.new_path)), Role::Binary { sec: si }),
+                SK::BinaryAdded => push(out, format!("Binary files /dev/null and {} differ", q(b, &sec.new_path)), Role::Binary { sec: si }),
+                SK::BinaryDeleted => push(out, format!("Binary files {} and /dev/null differ", q(a, &sec.old_path)), Role::Binary { sec: si }),
                 _ => {}
             }
             if sec.kind.has_hunks() {
-                let m = if sec.kind == SK::Added { "/dev/null".to_string() } else { format!("{}{}{}", a, sec.old_path, path_line_suffix(&sec.old_path)) };
-                let p = if sec.kind == SK::Deleted { "/dev/null".to_string() } else { format!("{}{}{}", b, sec.new_path, path_line_suffix(&sec.new_path)) };
+                let m = if sec.kind == SK::Added { "/dev/null".to_string() } else { format!("{}{}", q(a, &sec.old_path), path_line_suffix(&sec.old_path)) };
+                let p = if sec.kind == SK::Deleted { "/dev/null".to_string() } else { format!("{}{}", q(b, &sec.new_path), path_line_suffix(&sec.new_path)) };
                 push(out, format!("--- {}", m), Role::MinusFile { sec: si });
                 push(out, format!("+++ {}", p), Role::PlusFile { sec: si });
             }
@@ -797,11 +822,12 @@ pub fn gen_plain_case(t: &mut Tape, o: &GenOpts) -> DiffCase {
         }
         s.old_path = s.old_path.replace(' ', "_");
         s.new_path = p2;
-        // (two consecutive plain-diff sections with the same pair of names are a known
-        // finding, KF-C14-1: the second header is suppressed as a duplicate)
+        // two consecutive sections comparing the same pair of names (concatenated patches of one
+        // file): each is a section of its own, with its own header
         if let Some(Item::Section(prev)) = items.last() {
-            if prev.old_path == s.old_path && prev.new_path == s.new_path && !t.chance(1, 4) {
-                s.new_path = format!("other_{}", s.new_path);
+            if t.fork(12).chance(1, 5) {
+                s.old_path = prev.old_path.clone();
+                s.new_path = prev.new_path.clone();
             }
         }
         items.push(Item::Section(s));
